@@ -59,6 +59,9 @@ def execute(run, cases, tag="b0"):
                 r = run.violation(c, "rustc %s: %s" % (v.get("code"), v.get("message")))
                 run.witness_result(c["corpus"].split(":")[1], True)
             continue
+        if not c.get("vectors"):
+            run.count("cases-without-payload")   # every payload attempt hit the depth guard (deep non-null nesting)
+            continue
         o = obs.get(cid)
         if o is None or o.get("signal") or (o.get("exit") not in (0,)):
             run.inconclusive_case(cid, "probe exit=%s signal=%s %s" % (o and o.get("exit"), o and o.get("signal"), o and o.get("stderr")))
